@@ -193,7 +193,9 @@ class ConfigService:
             return []
         if isinstance(value, str):
             return [prefix for prefix in value.split(',') if prefix]
-        return value
+        # an empty element (a doubled or trailing comma in DEEP_IN_APP_INCLUDE / DEEP_IN_APP_EXCLUDE) names no prefix:
+        # as a prefix it would match every file
+        return [prefix for prefix in value if prefix]
 
     def _find_plugin(self, plugin_type) -> PLUGIN_TYPE:
         return next(self.__plugin_generator(plugin_type), None)
